@@ -91,7 +91,15 @@ func (p *poller) addConn(c *Conn) error {
 	if err != nil {
 		p.g.connsUnix[fd] = nil
 		_ = c.closeWithError(err)
+		return err
 	}
+	// If data was written and cached in the open callback, the writing event
+	// could not be set because the fd had not been added yet, set it now.
+	c.mux.Lock()
+	if !c.closed && c.isWAdded {
+		_ = p.modWrite(fd)
+	}
+	c.mux.Unlock()
 	return err
 }
 
